@@ -10,6 +10,7 @@ from vlib import gen_envelope as GE, gen_json as G, keys, ref_ed25519, ref_verif
 from vlib.ref_canon import canon, jeq, same_order
 from vlib import cfgunit as _cfgunit
 from vlib.runner import Unit, Violation
+from vlib import editor as _editor
 from vlib import threaded as _threaded
 from vlib import interfere as _intf, interrupt as _interrupt
 
@@ -29,12 +30,17 @@ ref_ed25519.self_test()
 
 @st.composite
 def _cases(draw):
-    seeds = draw(keys.seed_lists(1, 5))
+    crowd = draw(st.integers(0, 15)) == 0
+    # one case in sixteen: a crowd of 33-100 signers (limits such as "at most 32 / 64 entries examined" need one)
+    seeds = keys.derived_seeds(draw(st.integers(0, 2 ** 32)), draw(st.integers(33, 100))) if crowd else draw(keys.seed_lists(1, 5))
     k = len(seeds)
     order = draw(st.lists(st.integers(0, k - 1), min_size=k, max_size=k + 3))
     order = order + [i for i in range(k) if i not in order]
     order2 = list(draw(st.permutations(order)))
     foreign = draw(st.lists(st.tuples(st.one_of(G.strings, keys.ghost_keys), GE.JUNK_VALUES), max_size=3))
+    if draw(st.integers(0, 7)) == 0:
+        # a flood of other parties' entries (well-formed, by keys nobody here holds)
+        foreign += [(g, {"signature": "ab" * 64}) for g in keys.derived_ghosts(draw(st.integers(0, 2 ** 32)), draw(st.integers(33, 150)))]
     pubs = {keys.pub_hex(s) for s in seeds}
     foreign = [[a, b] for a, b in foreign if a not in pubs]
     # stale content already filed under some signers' own keys (must be replaced by signing)
@@ -115,10 +121,13 @@ def _check_case(case):
     if not jeq(payload, original):
         raise Violation("signing modified the caller's payload", bucket="payload mutated")
     expected_sigs = {a: b for a, b in case["foreign"]}
-    for s in seeds:
-        expected_sigs[keys.pub_hex(s)] = {"signature": ref_ed25519.sign(s, B).hex()}
-        if ref_ed25519.public_key(s).hex() != keys.pub_hex(s):
-            raise Violation("harness: oracle primitives disagree on the public key", bucket="harness")
+    for n_, s in enumerate(seeds):
+        if n_ < 5:      # pure-Python RFC 8032 for the first five signers, the cross-checked fast primitive for the rest of a crowd
+            expected_sigs[keys.pub_hex(s)] = {"signature": ref_ed25519.sign(s, B).hex()}
+            if ref_ed25519.public_key(s).hex() != keys.pub_hex(s):
+                raise Violation("harness: oracle primitives disagree on the public key", bucket="harness")
+        else:
+            expected_sigs[keys.pub_hex(s)] = {"signature": keys.sign_raw(s, B).hex()}
     expected = {"signatures": expected_sigs, "signed": original}
     if not (jeq(env, expected)):
         diff = sorted(set(env.get("signatures", {})) ^ set(expected_sigs))
@@ -143,7 +152,7 @@ def _check_case(case):
 
     # threshold boundary
     pubs = [keys.pub_hex(s) for s in seeds]
-    for t in range(1, k + 2):
+    for t in (range(1, k + 2) if k <= 8 else sorted({1, 2, 8, 9, 16, 17, 31, 32, 33, 63, 64, 65, k // 2, k - 1, k, k + 1} & set(range(1, k + 2)))):
         o, exc = RV.outcome(A.verify_signable, copy.deepcopy(env), pubs, t)
         want = "accept" if t <= k else "SignatureError"
         if o != want:
@@ -155,7 +164,7 @@ def _check_case(case):
         raise Violation("k=%d signers, authorized list repeats a key, threshold k+1: expected SignatureError, got %s"
                         % (k, o), bucket="threshold boundary")
     # each key alone
-    for p in pubs:
+    for p in (pubs if k <= 8 else pubs[:3] + pubs[-3:] + pubs[30:36] + pubs[62:68]):
         o, _ = RV.outcome(A.verify_signable, copy.deepcopy(env), [p], 1)
         if o != "accept":
             raise Violation("signature does not verify with its own key authorized: %s" % o, bucket="own key")
@@ -207,11 +216,13 @@ def check_interrupted_sweep(case):
 UNITS = [
     Unit("interrupted_sweep", check_interrupted_sweep, strategy=_interrupted_sweep_cases, quick=18, thorough=500, shards_quick=3,
          doc="every line event and every C-level call of one verify_signable interrupted once on a fresh envelope, each followed by a normal retry of the same envelope"),
-    Unit("roundtrip", check_case, strategy=_cases, quick=800, thorough=24000,
+    Unit("roundtrip", check_case, strategy=_cases, quick=800, thorough=24000, shards_quick=16,
          essential=["strict-edit", "neutral-edit", "signers=2", "stale=1"],
          doc="wrap, sign (any order, repeats), full differential against RFC 8032 reference, thresholds, edits"),
     _cfgunit.unit_under_config(PROPERTY, 'roundtrip', exclude=()),
     _intf.unit_after(PROPERTY, 'roundtrip', quick=150, thorough=6000),
-    _interrupt.unit_interrupted(PROPERTY, 'roundtrip', quick=12, thorough=300, max_points=40, shards_quick=12),
+    _interrupt.unit_interrupted(PROPERTY, 'roundtrip', quick=12, thorough=300, max_points=40, shards_quick=12,
+                                filter_case=lambda c: len(c["seeds"]) <= 8 and len(c["foreign"]) <= 8),
     _threaded.unit_threads(PROPERTY),
+    _editor.unit(),
 ]
